@@ -1,6 +1,8 @@
 package main
 
 import (
+	"strings"
+	"sort"
 	"fmt"
 	"go/token"
 	"go/types"
@@ -17,7 +19,7 @@ func init() {
 			"(R3) the copy into the metadata buffer is dominated by the size, index (not off by one), block-length and not-already-present guards; the buffer and vote allocations are dominated by the 1..128 MiB size check; " +
 			"(R4) the parsed geometry is validated before publication (C13.R1 re-evaluated: crafted but authentic metadata must not crash).",
 		Rules:       []string{"R1 single publication point (E-who)", "R2 hash gate + co-assignment of the metadata buffer and its bookkeeping (E-dom, E-must)", "R3 copy validated; allocations bounded (E-dom, E-int)", "R4 geometry validated before publication (shared with C13)"},
-		NotDecided:  []string{"completion after the last corruption (history/liveness): e.g. whether the block-length guard accepts every honest block is value arithmetic", "majority vote outcome"},
+		NotDecided:  []string{"completion after the last corruption (history/liveness) in general; the block-length guard itself is decided (R3 block-length-exact)", "majority vote outcome"},
 		Assumptions: []string{"crypto/sha1"},
 		Run:         runC12,
 	})
@@ -349,6 +351,9 @@ func runC12(r *Report) {
 				return fv == ib && stripIntConv(c.Call.Args[1]) == sj[0]
 			}},
 		}
+		reqs = append(reqs, edgeReq{Name: "block length exact", ViaHelper: true, Subj: subj, MatchS: func(sj []ssa.Value, cond ssa.Value, pol bool) bool {
+			return c12LengthExact(p, infoF, sj[0], sj[2], cond, pol)
+		}})
 		miss, reached := pathsMissingEntry(gm, func(in ssa.Instruction) bool { return in == ssa.Instruction(cp) }, nil, reqs)
 		missing := map[string]bool{}
 		for _, m := range miss {
@@ -360,6 +365,8 @@ func runC12(r *Report) {
 		r.Check(!missing[reqs[0].Name], "R3", "gotMetadata/size==len(Info)", cp.Pos(), "every path to the copy tests size == len(t.Info)", "the copy into the metadata buffer is not preceded on every path by the announced size matching the buffer")
 		r.Check(!missing[reqs[1].Name], "R3", "gotMetadata/index<chunks", cp.Pos(), "every path to the copy tests index < number of blocks (strict)", "the copy is not preceded on every path by a strict upper bound on the block index (index == count slices past the end when the size is not a multiple of 16 KiB)")
 		r.Check(!missing[reqs[2].Name], "R3", "gotMetadata/block-length-guard", cp.Pos(), "every path to the copy branches on len(data)", "no guard on the block length precedes the copy into the metadata buffer")
+		r.Check(!missing[reqs[4].Name], "R3", "gotMetadata/block-length-exact", cp.Pos(), "every path to the copy established that the block is 16 KiB long or ends exactly at the end of the metadata",
+			"a path reaches the copy without having established len(data) == 16384 or index*16384+len(data) == len(t.Info) (in one of the forms the rule can prove: the equalities themselves, len(data) == min(16384, len(Info)-index*16384), or len(Info) % 16384 for the last block where that remainder is non-zero): a short block in the middle is accepted, or the honest last block of a metadata whose size is a multiple of 16 KiB is refused and the download never completes")
 		r.Check(!missing[reqs[3].Name], "R3", "gotMetadata/not-already-present", cp.Pos(), "a block already present is not overwritten", "the copy is not preceded on every path by !infoBitmap.Get(index): a later forged duplicate overwrites an honest block")
 	}
 	// allocations: make([]byte, size) / votes under the 1..128MiB check
@@ -423,4 +430,195 @@ func runC12(r *Report) {
 	// ---- R4
 	c13R1(r, "R4")
 	_ = types.Typ
+}
+
+// c12LengthExact: the branch (cond, pol) establishes that the block length L = len(data) is exact for block i = index of
+// a metadata of n = len(t.Info) bytes: L == K, or i*K + L == n (K = 16384), in a form that can be proved by polynomial
+// identity plus two small lemmas: min(K, n-i*K) is one of the two; n % K is n - i*K when i is the last block and the
+// remainder is non-zero.
+func c12LengthExact(p *Prog, infoF *types.Var, index, data ssa.Value, cond ssa.Value, pol bool) bool {
+	const K = 16384
+	if index == nil || data == nil {
+		return false
+	}
+	op, x, y, ok := cmpFact(Guard{Cond: cond, Pol: pol})
+	if !ok || op != token.EQL {
+		return false
+	}
+	isN := func(v ssa.Value) bool {
+		c, ok := v.(*ssa.Call)
+		if !ok {
+			return false
+		}
+		bi, okb := c.Call.Value.(*ssa.Builtin)
+		if !okb || bi.Name() != "len" {
+			return false
+		}
+		fv, _ := loadedField(c.Call.Args[0])
+		return fv == infoF
+	}
+	// canonical polynomial over the atoms L, i, n
+	canon := func(v ssa.Value) (map[string]int64, bool) {
+		pl := polyOf(v, 0)
+		if !pl.ok {
+			return nil, false
+		}
+		out := map[string]int64{}
+		for mono, c := range pl.t {
+			var parts []string
+			if mono != "" {
+				for _, a := range strings.Split(mono, "*") {
+					av := pl.at[a]
+					switch {
+					case av != nil && isLenOf(av, data):
+						parts = append(parts, "L")
+					case av != nil && isN(av):
+						parts = append(parts, "n")
+					case av != nil && stripIntConv(av) == index:
+						parts = append(parts, "i")
+					default:
+						parts = append(parts, a)
+					}
+				}
+			}
+			sort.Strings(parts)
+			out[strings.Join(parts, "*")] += c
+		}
+		for k, c := range out {
+			if c == 0 {
+				delete(out, k)
+			}
+		}
+		return out, true
+	}
+	sub := func(a, b map[string]int64) map[string]int64 {
+		out := map[string]int64{}
+		for k, c := range a {
+			out[k] += c
+		}
+		for k, c := range b {
+			out[k] -= c
+		}
+		for k, c := range out {
+			if c == 0 {
+				delete(out, k)
+			}
+		}
+		return out
+	}
+	equalsUpToSign := func(d map[string]int64, want map[string]int64) bool {
+		for _, sg := range []int64{1, -1} {
+			okk := len(d) == len(want)
+			for k, c := range want {
+				if d[k] != sg*c {
+					okk = false
+				}
+			}
+			if okk {
+				return true
+			}
+		}
+		return false
+	}
+	// the whole comparison is one of the two equalities
+	if px, ok1 := canon(x); ok1 {
+		if py, ok2 := canon(y); ok2 {
+			d := sub(px, py)
+			if equalsUpToSign(d, map[string]int64{"L": 1, "": -K}) || equalsUpToSign(d, map[string]int64{"L": 1, "i": K, "n": -1}) {
+				return true
+			}
+		}
+	}
+	// L == e with e exact
+	var e ssa.Value
+	switch {
+	case isLenOf(stripIntConv(x), data):
+		e = y
+	case isLenOf(stripIntConv(y), data):
+		e = x
+	default:
+		return false
+	}
+	var exact func(e ssa.Value, gs []Guard, d int) bool
+	exact = func(e ssa.Value, gs []Guard, d int) bool {
+		if d > 6 {
+			return false
+		}
+		e = stripIntConv(e)
+		if pe, ok := canon(e); ok {
+			if equalsUpToSign(sub(pe, map[string]int64{"": K}), map[string]int64{}) && len(sub(pe, map[string]int64{"": K})) == 0 {
+				return true
+			}
+			if len(sub(pe, map[string]int64{"n": 1, "i": -K})) == 0 {
+				return true
+			}
+		}
+		switch x := e.(type) {
+		case *ssa.Call:
+			if bi, ok := x.Call.Value.(*ssa.Builtin); ok && bi.Name() == "min" {
+				for _, a := range x.Call.Args {
+					if !exact(a, gs, d+1) {
+						return false
+					}
+				}
+				return len(x.Call.Args) > 0
+			}
+		case *ssa.Phi:
+			for k, ed := range x.Edges {
+				if !exact(ed, guardsOnEdge(x.Block().Preds[k], x.Block()), d+1) {
+					return false
+				}
+			}
+			return len(x.Edges) > 0
+		case *ssa.BinOp:
+			if x.Op != token.REM {
+				return false
+			}
+			if k, okk := constInt(x.Y); !okk || k != K || !isN(stripIntConv(x.X)) {
+				return false
+			}
+			// lemma: for the last block (i == count-1, count = number of blocks) and n % K != 0, n % K == n - i*K
+			nonZero, last := false, false
+			for _, g := range gs {
+				op2, a, b, ok2 := cmpFact(g)
+				if !ok2 {
+					continue
+				}
+				if op2 == token.NEQ || op2 == token.GTR {
+					if z, okz := constInt(b); okz && z == 0 {
+						if aa := stripIntConv(a); aa == ssa.Value(x) {
+							nonZero = true
+						} else if r2, okr := aa.(*ssa.BinOp); okr && r2.Op == token.REM && isN(stripIntConv(r2.X)) {
+							if k2, okk2 := constInt(r2.Y); okk2 && k2 == K {
+								nonZero = true
+							}
+						}
+					}
+				}
+				if op2 == token.EQL {
+					pa, ok3 := canon(a)
+					pb, ok4 := canon(b)
+					if !ok3 || !ok4 {
+						continue
+					}
+					dd := sub(pa, pb)
+					// i - count + 1 == 0 where count is any single other atom (the block count)
+					if len(dd) == 3 && (dd["i"] == 1 || dd["i"] == -1) && dd[""] == dd["i"] {
+						for k3, c3 := range dd {
+							if k3 != "i" && k3 != "" && c3 == -dd["i"] && !strings.Contains(k3, "*") {
+								last = true
+							}
+						}
+					}
+				}
+			}
+			return nonZero && last
+		}
+		return false
+	}
+	var gs []Guard
+	if ci, ok := cond.(ssa.Instruction); ok && ci.Block() != nil {
+		gs = guardsOf(ci.Block())
+	}
+	return exact(e, gs, 0)
 }
